@@ -2,9 +2,10 @@
    the copy, the first counter value k >= the module counter for which no definition of the library carries
    the name <old>_sdn_unique_<k> nor (without case) the identifier <old identifier>_sdn_unique_<k>
    (Xform.fresh_ctr; Proofs/UniqFresh.v: the search never runs out). Hence: the definition added by a
-   completed round is named <old>_sdn_unique_<k>, that name differs from the name of every definition of
-   the library; the naming test of add_definition (NamespaceManager.add) never refuses the renamed copy of
-   a named cell - in any round of any run, completed or not; the exact name and identifier tables of the
+   completed round is named <old>_sdn_unique_<k> (when the cell has a name; its identifier, when it has
+   one, gets the same suffix - also when the cell has no name), that name differs from the name of every
+   definition of the library; the naming test of add_definition (NamespaceManager.add) never refuses the
+   copy - in any round of any run, completed or not; the exact name and identifier tables of the
    libraries are preserved; a completed uniquify never leaves two definitions with one name in a library. *)
 From Coq Require Import List Arith Bool Lia.
 From RecordUpdate Require Import RecordSet.
@@ -296,25 +297,7 @@ Proof.
   split; [intro y; split; [apply (ks_name _ _ K)|apply (ks_ident _ _ K)]|]. split; [exact Ht|exact Hl].
 Qed.
 
-(* ---- the renaming block of _make_instance_unique ---- *)
-Definition named_block (x1 : xstate) (lib d d' : id) : XR :=
-  match get_str (st x1) d str_NAME with
-  | Some nm =>
-      let defs := kids (st x1) RDefs lib in
-      match fresh_ctr (fresh_fuel defs) (st x1) defs nm (get_str (st x1) d str_IDENT) (uniq_ctr x1) with
-      | None => (x1, Some XOutOfFuel)
-      | Some k =>
-          let suffix := str_uniq ++ dec k in
-          let x2 := mkX (st x1) (S k) (flat_ctr x1) in
-          liftR x2 (dict_set (st x2) d' str_NAME (VStr (nm ++ suffix))) (fun x3 =>
-            match get_str (st x3) d' str_IDENT with
-            | Some idv => liftR x3 (dict_set (st x3) d' str_IDENT (VStr (idv ++ suffix))) (fun x4 => (x4, None))
-            | None => (x3, None)
-            end)
-      end
-  | None => (x1, None)
-  end.
-
+(* ---- the renaming block of _make_instance_unique (Xform.rename_block) ---- *)
 (* _make_instance_unique is: clone, the renaming block, add_definition, the reference change *)
 Lemma make_instance_unique_unfold x inst :
   make_instance_unique x inst =
@@ -326,7 +309,7 @@ Lemma make_instance_unique_unfold x inst :
       | Some lib =>
           let '(r, d') := clone_definition (st x) d in
           liftR x r (fun x1 =>
-            match named_block x1 lib d d' with
+            match rename_block x1 lib d d' with
             | (x5, Some e) => (x5, Some e)
             | (x5, None) =>
                 liftR x5 (op_add (st x5) RDefs lib d' (Some (S (index_of d (kids (st x) RDefs lib))))) (fun x6 =>
@@ -336,29 +319,50 @@ Lemma make_instance_unique_unfold x inst :
   end.
 Proof. reflexivity. Qed.
 
-(* the search never runs out of fuel: the renaming block does not end with XOutOfFuel *)
-Lemma named_block_fuel x1 lib d d' : snd (named_block x1 lib d d') <> Some XOutOfFuel.
+(* the assignment of the identifier, on a definition that is in no library *)
+Lemma set_ident_spec x3 d' sfx x5 : ns_parent (st x3) d' = None ->
+  match get_str (st x3) d' str_IDENT with
+  | Some idv => liftR x3 (dict_set (st x3) d' str_IDENT (VStr (idv ++ sfx))) (fun x4 => (x4, None))
+  | None => (x3, None)
+  end = (x5, None) ->
+  struct_eq (st x3) (st x5) /\ nstab (st x5) = nstab (st x3) /\ (forall y, y <> d' -> data (st x5) y = data (st x3) y) /\
+  get_str (st x5) d' str_NAME = get_str (st x3) d' str_NAME /\ uniq_ctr x5 = uniq_ctr x3 /\
+  get_str (st x5) d' str_IDENT = option_map (fun i => i ++ sfx) (get_str (st x3) d' str_IDENT).
 Proof.
-  unfold named_block. destruct (get_str (st x1) d str_NAME) as [nm|]; [|cbn [snd]; intro HH; discriminate HH]. cbv zeta.
-  destruct (fresh_ctr _ _ _ _ _ _) as [k|] eqn:Ef; [|exfalso; apply (fresh_ctr_total _ _ _ _ _ Ef)].
-  unfold liftR at 1. destruct (dict_set _ _ _ _) as [s2 [e|]]; [cbn [snd]; intro HH; discriminate HH|].
-  clear Ef. destruct (get_str _ d' str_IDENT) as [idv|]; [|cbn [snd]; intro HH; discriminate HH].
-  unfold liftR. destruct (dict_set _ _ _ _) as [s3 [e|]]; cbn [snd]; intro HH; discriminate HH.
+  intros Hp. destruct (get_str (st x3) d' str_IDENT) as [idv|] eqn:E3.
+  2:{ intro H. injection H as <-. split; [apply struct_eq_refl|]. split; [reflexivity|]. split; [reflexivity|].
+      split; [reflexivity|]. split; [reflexivity|]. rewrite E3. reflexivity. }
+  unfold liftR. destruct (dict_set (st x3) d' str_IDENT (VStr (idv ++ sfx))) as [s3 [e|]] eqn:E2; [discriminate|].
+  apply (dict_set_orphan (st x3) d' str_IDENT _ s3 eq_refl Hp) in E2.
+  intro H. injection H as <-. cbn [st uniq_ctr].
+  split; [subst s3; eapply struct_eq_trans; [apply se_emit|apply se_data_write]|].
+  split; [subst s3; reflexivity|].
+  split; [intros y Hy; subst s3; cbn -[str_IDENT]; apply upd_other; exact Hy|].
+  split; [subst s3; rewrite get_str_write, name_ne_ident, andb_false_r; reflexivity|]. split; [reflexivity|].
+  subst s3. rewrite get_str_write, Nat.eqb_refl, str_eqb_refl. reflexivity.
 Qed.
 
-Lemma named_block_spec x1 lib d d' x5 : ns_parent (st x1) d' = None -> named_block x1 lib d d' = (x5, None) ->
+Lemma rename_block_spec x1 lib d d' x5 : ns_parent (st x1) d' = None -> rename_block x1 lib d d' = (x5, None) ->
   struct_eq (st x1) (st x5) /\ nstab (st x5) = nstab (st x1) /\ (forall y, y <> d' -> data (st x5) y = data (st x1) y) /\
-  match get_str (st x1) d str_NAME with
-  | Some nm => exists k,
-      fresh_ctr (fresh_fuel (kids (st x1) RDefs lib)) (st x1) (kids (st x1) RDefs lib) nm (get_str (st x1) d str_IDENT) (uniq_ctr x1) = Some k /\
-      get_str (st x5) d' str_NAME = Some (nm ++ str_uniq ++ dec k) /\ uniq_ctr x5 = S k /\
+  if is_some (get_str (st x1) d str_NAME) || is_some (get_str (st x1) d str_IDENT) then exists k,
+      fresh_ctr (fresh_fuel (kids (st x1) RDefs lib)) (st x1) (kids (st x1) RDefs lib)
+                (get_str (st x1) d str_NAME) (get_str (st x1) d str_IDENT) (uniq_ctr x1) = Some k /\
+      get_str (st x5) d' str_NAME = match get_str (st x1) d str_NAME with
+                                    | Some nm => Some (nm ++ str_uniq ++ dec k)
+                                    | None => get_str (st x1) d' str_NAME
+                                    end /\
+      uniq_ctr x5 = S k /\
       get_str (st x5) d' str_IDENT = option_map (fun i => i ++ str_uniq ++ dec k) (get_str (st x1) d' str_IDENT)
-  | None => st x5 = st x1 /\ uniq_ctr x5 = uniq_ctr x1
-  end.
+  else st x5 = st x1 /\ uniq_ctr x5 = uniq_ctr x1.
 Proof.
-  intros Hp. unfold named_block. destruct (get_str (st x1) d str_NAME) as [nm|].
+  intros Hp. unfold rename_block. cbv zeta.
+  destruct (is_some (get_str (st x1) d str_NAME) || is_some (get_str (st x1) d str_IDENT)).
   2:{ intro H. injection H as <-. split; [apply struct_eq_refl|]. split; [reflexivity|]. split; [reflexivity|split; reflexivity]. }
-  cbv zeta. destruct (fresh_ctr _ _ _ _ _ _) as [k|] eqn:Ef; [|discriminate].
+  destruct (fresh_ctr _ _ _ _ _ _) as [k|] eqn:Ef; [|discriminate].
+  destruct (get_str (st x1) d str_NAME) as [nm|].
+  2:{ intro H. destruct (set_ident_spec (mkX (st x1) (S k) (flat_ctr x1)) d' (str_uniq ++ dec k) x5 Hp H) as [A [B [C [D [E G]]]]].
+      cbn [st uniq_ctr] in *. split; [exact A|]. split; [exact B|]. split; [exact C|].
+      exists k. split; [reflexivity|]. split; [exact D|]. split; [exact E|exact G]. }
   cbn [st]. unfold liftR at 1.
   destruct (dict_set (st x1) d' str_NAME (VStr (nm ++ str_uniq ++ dec k))) as [s2 [e|]] eqn:E1; [discriminate|].
   apply (dict_set_orphan (st x1) d' str_NAME _ s2 eq_refl Hp) in E1. cbn [st uniq_ctr flat_ctr].
@@ -369,20 +373,12 @@ Proof.
   { subst s2. rewrite get_str_write, Nat.eqb_refl, str_eqb_refl. reflexivity. }
   assert (G3 : get_str s2 d' str_IDENT = get_str (st x1) d' str_IDENT).
   { subst s2. rewrite get_str_write, ident_ne_name, andb_false_r. reflexivity. }
-  destruct (get_str s2 d' str_IDENT) as [idv|] eqn:E3.
-  2:{ intro H. injection H as <-. cbn [st uniq_ctr]. split; [exact H2|]. split; [exact N2|]. split; [exact D2|].
-      exists k. split; [reflexivity|]. split; [exact G2|]. split; [reflexivity|]. rewrite E3, <- G3. reflexivity. }
-  unfold liftR. cbn [st uniq_ctr flat_ctr].
-  destruct (dict_set s2 d' str_IDENT (VStr (idv ++ str_uniq ++ dec k))) as [s3 [e|]] eqn:E2; [discriminate|].
   assert (Hp2 : ns_parent s2 d' = None) by (unfold ns_parent in *; rewrite (se_kind _ _ H2), (se_par _ _ H2); exact Hp).
-  apply (dict_set_orphan s2 d' str_IDENT _ s3 eq_refl Hp2) in E2.
-  intro H. injection H as <-. cbn [st uniq_ctr].
-  split; [subst s3; eapply struct_eq_trans; [exact H2|]; eapply struct_eq_trans; [apply se_emit|apply se_data_write]|].
-  split; [subst s3; exact N2|].
-  split; [intros y Hy; subst s3; cbn -[str_IDENT]; rewrite upd_other by exact Hy; apply D2; exact Hy|].
-  exists k. split; [reflexivity|].
-  split; [subst s3; rewrite get_str_write, name_ne_ident, andb_false_r; exact G2|]. split; [reflexivity|].
-  rewrite <- G3. subst s3. rewrite get_str_write, Nat.eqb_refl, str_eqb_refl. reflexivity.
+  intro H. destruct (set_ident_spec (mkX s2 (S k) (flat_ctr x1)) d' (str_uniq ++ dec k) x5 Hp2 H) as [A [B [C [D [E G]]]]].
+  cbn [st uniq_ctr] in *.
+  split; [eapply struct_eq_trans; [exact H2|exact A]|]. split; [rewrite B; exact N2|].
+  split; [intros y Hy; rewrite (C y Hy); apply D2; exact Hy|].
+  exists k. split; [reflexivity|]. split; [rewrite D; exact G2|]. split; [exact E|]. rewrite G, G3. reflexivity.
 Qed.
 
 (* ---- one round ---- *)
@@ -399,22 +395,22 @@ Section RoundN.
     aa_keys : forall y, y < next s -> get_str (st x5) y str_NAME = get_str s y str_NAME /\ get_str (st x5) y str_IDENT = get_str s y str_IDENT;
     aa_tab : forall y, y < next s -> nstab (st x5) y = nstab s y;
     aa_sub : forall l, l < next s -> ~ In l (subtree (st x5) (next s));
-    aa_new : match get_str s d str_NAME with
-             | Some nm => exists k, uniq_ctr x <= k /\ uniq_ctr x5 = S k /\
-                 get_str (st x5) (next s) str_NAME = Some (nm ++ str_uniq ++ dec k) /\
+    aa_new : if is_some (get_str s d str_NAME) || is_some (get_str s d str_IDENT) then
+               exists k, uniq_ctr x <= k /\ uniq_ctr x5 = S k /\
+                 get_str (st x5) (next s) str_NAME = option_map (fun nm => nm ++ str_uniq ++ dec k) (get_str s d str_NAME) /\
                  get_str (st x5) (next s) str_IDENT = option_map (fun i => i ++ str_uniq ++ dec k) (get_str s d str_IDENT) /\
-                 (forall c, In c (kids s RDefs lib) -> get_str s c str_NAME <> Some (nm ++ str_uniq ++ dec k)) /\
+                 (forall nm c, get_str s d str_NAME = Some nm -> In c (kids s RDefs lib) ->
+                    get_str s c str_NAME <> Some (nm ++ str_uniq ++ dec k)) /\
                  (forall i c w, get_str s d str_IDENT = Some i -> In c (kids s RDefs lib) -> get_str s c str_IDENT = Some w ->
                     lower w <> lower (i ++ str_uniq ++ dec k)) /\
                  (forall j, uniq_ctr x <= j -> j < k ->
-                    suffix_taken s (kids s RDefs lib) nm (get_str s d str_IDENT) (str_uniq ++ dec j) = true)
-             | None => get_str (st x5) (next s) str_NAME = None /\ uniq_ctr x5 = uniq_ctr x
-             end
+                    suffix_taken s (kids s RDefs lib) (get_str s d str_NAME) (get_str s d str_IDENT) (str_uniq ++ dec j) = true)
+             else get_str (st x5) (next s) str_NAME = None /\ get_str (st x5) (next s) str_IDENT = None /\ uniq_ctr x5 = uniq_ctr x
   }.
 
   Lemma round_at_add lib x5 :
     par s RDefs d = Some lib -> snd (fst (clone_definition s d)) = None ->
-    named_block (mkX (fst (fst (clone_definition s d))) (uniq_ctr x) (flat_ctr x)) lib d (next s) = (x5, None) ->
+    rename_block (mkX (fst (fst (clone_definition s d))) (uniq_ctr x) (flat_ctr x)) lib d (next s) = (x5, None) ->
     AtAdd lib x5.
   Proof.
     intros Ep Hc Hnb. pose proof U as [I [T [F [FT0 K]]]]. pose proof (inv_a _ I) as I1.
@@ -448,7 +444,7 @@ Section RoundN.
     assert (P1 : PL n0 s1) by (intros y l Hy; rewrite RP in Hy; apply (HPL y l Hy)).
     assert (Hnd1 : forall l, ~ In d' (kids s1 RDefs l)).
     { intros l Hin. rewrite RK in Hin. pose proof (Hold l d' Hin). unfold d' in *. lia. }
-    destruct (named_block_spec x1 lib d d' x5 Hpar1 Hnb) as [SE5 [N5 [D5 HN5]]]. unfold x1 in SE5, N5, D5, HN5. cbn [st uniq_ctr] in SE5, N5, D5, HN5.
+    destruct (rename_block_spec x1 lib d d' x5 Hpar1 Hnb) as [SE5 [N5 [D5 HN5]]]. unfold x1 in SE5, N5, D5, HN5. cbn [st uniq_ctr] in SE5, N5, D5, HN5.
     rewrite (GS1 d str_NAME Hd), (GS1 d str_IDENT Hd), RK in HN5.
     assert (Hname1 : forall k0, k0 <> str_NS -> get_str s1 d' k0 = get_str s d k0).
     { intros k0 Hk0. apply (clone_get_str_same s d s1 _ DT d d' KDefinition (ds_root _ _ _ _ _ S) Hkd eq_refl). exact Hk0. }
@@ -471,33 +467,38 @@ Section RoundN.
       + destruct (Forall2_in_r _ _ _ l (ds_ports _ _ _ _ _ S) Hin) as [a [_ Ha]]. apply (Hnew l); [exists a; exact Ha|reflexivity].
       + destruct (Forall2_in_r _ _ _ l (ds_cables _ _ _ _ _ S) Hin) as [a [_ Ha]]. apply (Hnew l); [exists a; exact Ha|reflexivity].
       + destruct (Forall2_in_r _ _ _ l (ds_children _ _ _ _ _ S) Hin) as [a [_ Ha]]. apply (Hnew l); [exists a; exact Ha|reflexivity].
-    - destruct (get_str s d str_NAME) as [nm|] eqn:Enm.
+    - destruct (is_some (get_str s d str_NAME) || is_some (get_str s d str_IDENT)) eqn:Ekeys.
       + destruct HN5 as [k [Ef [G5 [C5 G6]]]].
-        rewrite (fresh_ctr_ext s s1 (kids s RDefs lib) nm (get_str s d str_IDENT)) in Ef.
+        rewrite (fresh_ctr_ext s s1 (kids s RDefs lib) (get_str s d str_NAME) (get_str s d str_IDENT)) in Ef.
         2:{ intros c Hcin. pose proof (Hold lib c Hcin) as Hcl. split; apply GS1; exact Hcl. }
         destruct (fresh_ctr_fresh _ _ _ _ _ _ _ Ef) as [A [B [C D]]].
-        exists k. split; [exact A|]. split; [exact C5|]. split; [exact G5|].
+        exists k. split; [exact A|]. split; [exact C5|].
+        split; [rewrite G5; destruct (get_str s d str_NAME) as [nm|] eqn:Enm; [reflexivity|rewrite (Hname1 str_NAME ltac:(discriminate)); exact Enm]|].
         split; [rewrite G6, (Hname1 str_IDENT ltac:(discriminate)); reflexivity|].
-        split; [exact B|]. split; [intros i c w Hi; apply (C i c w Hi)|exact D].
-      + destruct HN5 as [G5 C5]. rewrite G5. split; [rewrite (Hname1 str_NAME ltac:(discriminate)); exact Enm|exact C5].
+        split; [intros nm c Hnm; apply (B nm c Hnm)|]. split; [intros i c w Hi; apply (C i c w Hi)|exact D].
+      + destruct HN5 as [G5 C5]. rewrite G5. apply orb_false_iff in Ekeys as [Ek1 Ek2].
+        split; [rewrite (Hname1 str_NAME ltac:(discriminate)); destruct (get_str s d str_NAME); [discriminate|reflexivity]|].
+        split; [rewrite (Hname1 str_IDENT ltac:(discriminate)); destruct (get_str s d str_IDENT); [discriminate|reflexivity]|exact C5].
   Qed.
 
-  (* add_definition never refuses the renamed copy for its name or its identifier: whatever the library
-     holds, in whatever process the netlist was built, the test of NamespaceManager.add passes. (A cell
-     without a name is not renamed at all, so this is about named cells.) *)
+  (* add_definition never refuses the copy for its name or its identifier: whatever the library holds,
+     in whatever process the netlist was built, the test of NamespaceManager.add passes - for a cell with
+     a name, with an EDIF identifier, with both (the copy carries the fresh ones) or with neither (the
+     copy carries neither, so there is nothing to test). *)
   Theorem round_add_check lib x5 :
     par s RDefs d = Some lib -> snd (fst (clone_definition s d)) = None ->
-    named_block (mkX (fst (fst (clone_definition s d))) (uniq_ctr x) (flat_ctr x)) lib d (next s) = (x5, None) ->
-    get_str s d str_NAME <> None ->
+    rename_block (mkX (fst (fst (clone_definition s d))) (uniq_ctr x) (flat_ctr x)) lib d (next s) = (x5, None) ->
     ns_add_conflict (st x5) lib (next s) KDefinition = false.
   Proof.
-    intros Ep Hc Hnb Hnamed. destruct (round_at_add lib x5 Ep Hc Hnb) as [L5 _ _ K5 G5 _ _ HN].
+    intros Ep Hc Hnb. destruct (round_at_add lib x5 Ep Hc Hnb) as [L5 _ _ K5 G5 _ _ HN].
     pose proof U as [I [T [F [FT0 K]]]]. pose proof (inv_a _ I) as I1.
     assert (Hold : forall c, In c (kids s RDefs lib) -> c < next s) by (intros c Hcin; apply (kids_lt s RDefs lib c F I1 Hcin)).
     assert (Hliblt : lib < n0) by (apply (HPL d lib Ep)).
     unfold ns_add_conflict. destruct (nstab (st x5) lib) as [t|] eqn:Et; [|reflexivity].
     destruct (L5 lib t Hliblt Et) as [Sn Si]. rewrite K5 in Sn, Si.
-    destruct (get_str s d str_NAME) as [nm|]; [|contradiction]. destruct HN as [k [_ [_ [Gn [Gi [Fn [Fi _]]]]]]].
+    destruct (is_some (get_str s d str_NAME) || is_some (get_str s d str_IDENT)).
+    2:{ destruct HN as [Gn [Gi _]]. rewrite Gn, Gi. reflexivity. }
+    destruct HN as [k [_ [_ [Gn [Gi [Fn [Fi _]]]]]]].
     rewrite Gn, Gi. apply orb_false_iff. split.
     - destruct (get_str s d str_IDENT) as [i|]; cbn [option_map]; [|reflexivity].
       apply negb_false_iff. unfold ns_no_conflict. rewrite ident_ne_name. destruct (ns_pol t) eqn:Hp; [reflexivity|].
@@ -506,9 +507,10 @@ Section RoundN.
       apply (Si eq_refl) in Ex as [Hin Hk]. unfold ident_key in Hk. rewrite (proj2 (G5 c (Hold c Hin))) in Hk.
       destruct (get_str s c str_IDENT) as [w|] eqn:Ew; [|discriminate]. cbn [option_map] in Hk. injection Hk as Hk.
       apply (Fi i c w eq_refl Hin Ew Hk).
-    - apply negb_false_iff. unfold ns_no_conflict. rewrite str_eqb_refl. apply negb_true_iff. unfold tab_conflict.
+    - destruct (get_str s d str_NAME) as [nm|]; cbn [option_map]; [|reflexivity].
+      apply negb_false_iff. unfold ns_no_conflict. rewrite str_eqb_refl. apply negb_true_iff. unfold tab_conflict.
       destruct (sassoc (nm ++ str_uniq ++ dec k) (ns_names t KDefinition)) as [c|] eqn:Ex; [|reflexivity]. exfalso.
-      apply Sn in Ex as [Hin Hk]. unfold name_key in Hk. rewrite (proj1 (G5 c (Hold c Hin))) in Hk. apply (Fn c Hin Hk).
+      apply Sn in Ex as [Hin Hk]. unfold name_key in Hk. rewrite (proj1 (G5 c (Hold c Hin))) in Hk. apply (Fn nm c eq_refl Hin Hk).
   Qed.
 End RoundN.
 
@@ -525,17 +527,17 @@ Section RoundC.
       (forall c, In c (kids (st x') RDefs lib) <-> c = next s \/ In c (kids s RDefs lib)) /\
       (forall l, l <> lib -> kids (st x') RDefs l = kids s RDefs l) /\
       (forall l c, In c (kids s RDefs l) -> get_str (st x') c str_NAME = get_str s c str_NAME /\ ident_key (st x') c = ident_key s c) /\
-      match get_str s d str_NAME with
-      | Some nm => exists k, uniq_ctr x <= k /\ uniq_ctr x' = S k /\
-                   get_str (st x') (next s) str_NAME = Some (nm ++ str_uniq ++ dec k) /\
+      if is_some (get_str s d str_NAME) || is_some (get_str s d str_IDENT) then
+        exists k, uniq_ctr x <= k /\ uniq_ctr x' = S k /\
+                   get_str (st x') (next s) str_NAME = option_map (fun nm => nm ++ str_uniq ++ dec k) (get_str s d str_NAME) /\
                    ident_key (st x') (next s) = option_map (fun i => lower (i ++ str_uniq ++ dec k)) (get_str s d str_IDENT) /\
-                   (forall c, In c (kids s RDefs lib) -> get_str s c str_NAME <> Some (nm ++ str_uniq ++ dec k)) /\
+                   (forall nm c, get_str s d str_NAME = Some nm -> In c (kids s RDefs lib) ->
+                      get_str s c str_NAME <> Some (nm ++ str_uniq ++ dec k)) /\
                    (forall i c w, get_str s d str_IDENT = Some i -> In c (kids s RDefs lib) -> get_str s c str_IDENT = Some w ->
                       lower w <> lower (i ++ str_uniq ++ dec k)) /\
                    (forall j, uniq_ctr x <= j -> j < k ->
-                      suffix_taken s (kids s RDefs lib) nm (get_str s d str_IDENT) (str_uniq ++ dec j) = true)
-      | None => get_str (st x') (next s) str_NAME = None /\ uniq_ctr x' = uniq_ctr x
-      end.
+                      suffix_taken s (kids s RDefs lib) (get_str s d str_NAME) (get_str s d str_IDENT) (str_uniq ++ dec j) = true)
+      else get_str (st x') (next s) str_NAME = None /\ ident_key (st x') (next s) = None /\ uniq_ctr x' = uniq_ctr x.
   Proof.
     intro E. pose proof U as [I [T [F [FT0 K]]]]. pose proof (inv_a _ I) as I1.
     rewrite make_instance_unique_unfold in E. fold s in E. rewrite Ei in E.
@@ -546,7 +548,7 @@ Section RoundC.
     pose proof (clone_definition_id s d) as Hid.
     revert E RA. destruct (clone_definition s d) as [[s1 e1] dd]. cbn [fst snd] in *. subst e1 dd. cbn [liftR]. intros E RA.
     set (d' := next s) in *.
-    destruct (named_block (mkX s1 (uniq_ctr x) (flat_ctr x)) lib d d') as [x5 [e|]] eqn:Hnb; [discriminate|].
+    destruct (rename_block (mkX s1 (uniq_ctr x) (flat_ctr x)) lib d d') as [x5 [e|]] eqn:Hnb; [discriminate|].
     destruct (RA x5 eq_refl) as [L5 P5 T5 K5 G5 N5 Hsub5 HN5]. clear RA. fold s in K5, G5, N5, Hsub5, HN5. fold d' in Hsub5, HN5.
     assert (Hold : forall l c, In c (kids s RDefs l) -> c < next s) by (intros l c Hcin; apply (kids_lt s RDefs l c F I1 Hcin)).
     assert (Hnin5 : ~ In d' (kids (st x5) RDefs lib)).
@@ -606,10 +608,10 @@ Section RoundC.
     { intros l c Hcin. pose proof (Hold l c Hcin) as Hcl. destruct (KSall c) as [A B]. destruct (KS5 c Hcl) as [C D].
       split; [change (name_key s4 c = name_key s c)|]; congruence. }
     destruct (KSall d') as [Hname4 Hident4]. unfold name_key in Hname4. rewrite Hname4, Hident4.
-    destruct (get_str s d str_NAME) as [nm|] eqn:Enm.
+    destruct (is_some (get_str s d str_NAME) || is_some (get_str s d str_IDENT)).
     - destruct HN5 as [k [A [C5 [G5n [G5i [Fn [Fi Fm]]]]]]]. exists k. split; [exact A|]. split; [exact C5|]. split; [exact G5n|].
       split; [unfold ident_key; rewrite G5i; destruct (get_str s d str_IDENT); reflexivity|]. split; [exact Fn|split; [exact Fi|exact Fm]].
-    - exact HN5.
+    - destruct HN5 as [A [B C]]. split; [exact A|]. split; [unfold ident_key; rewrite B; reflexivity|exact C].
   Qed.
 End RoundC.
 
@@ -646,7 +648,7 @@ Proof.
       destruct (iref (st x1) j) as [d1|] eqn:Hr1; [|discriminate].
       pose proof U1 as [I' [T' [F' [FT' K']]]]. pose proof (inv_a _ I') as I1'.
       assert (Hctr : uniq_ctr x <= uniq_ctr x1).
-      { destruct (get_str (st x) d str_NAME); [destruct Hnew as [k [A [-> _]]]; lia|destruct Hnew as [_ ->]; lia]. }
+      { destruct (is_some _ || is_some _); [destruct Hnew as [k [A [-> _]]]; lia|destruct Hnew as [_ [_ ->]]; lia]. }
       assert (HA1 : AddedOK b lo (uniq_ctr x1) (st x1)).
       { intros l c v Hcin Hbc Hv.
         assert (Hcase : In c (kids (st x) RDefs l) \/ (l = lib /\ c = next (st x))).
@@ -654,8 +656,10 @@ Proof.
           rewrite (Hoth l Hne) in Hcin. left. exact Hcin. }
         destruct Hcase as [Hold|[-> ->]].
         - rewrite (proj1 (Hnames l c Hold)) in Hv. destruct (HA l c v Hold Hbc Hv) as [nm [k [-> [A B]]]]. exists nm, k. split; [reflexivity|lia].
-        - destruct (get_str (st x) d str_NAME) as [nm|]; [|destruct Hnew as [Hnone _]; rewrite Hnone in Hv; discriminate].
-          destruct Hnew as [k [A [Hc1 [Hsome _]]]]. rewrite Hsome in Hv. injection Hv as <-. exists nm, k. split; [reflexivity|lia]. }
+        - destruct (is_some _ || is_some _); [|destruct Hnew as [Hnone _]; rewrite Hnone in Hv; discriminate].
+          destruct Hnew as [k [A [Hc1 [Hsome _]]]]. rewrite Hsome in Hv.
+          destruct (get_str (st x) d str_NAME) as [nm|]; [|discriminate]. cbn [option_map] in Hv.
+          injection Hv as <-. exists nm, k. split; [reflexivity|lia]. }
       destruct (IH x1 (rest ++ kids (st x1) RChildren d1) x') as [L2 [P2 [C2 A2]]]; try assumption; try lia.
       * intros i Hi. apply in_app_or in Hi as [Hi|Hi]; [pose proof (HQ i (or_intror Hi)); lia|apply (kids_lt _ _ _ _ F' I1' Hi)].
       * split; [exact L2|split; [exact P2|split; [lia|exact A2]]].
@@ -746,23 +750,24 @@ Proof.
 Qed.
 
 (* in every round of a run of uniquify that starts in a state with the invariants - whether or not the
-   run completes - the renamed copy of a named cell passes the naming test of add_definition *)
+   run completes - the copy of the cell (named, carrying an identifier, both or neither) passes the
+   naming test of add_definition *)
 Theorem uniquify_add_never_refused_by_name fuel x n t dtop xr i d lib x5 :
   UF (st x) -> LT (next (st x)) (st x) -> top (st x) n = Some t -> iref (st x) t = Some dtop ->
   In (xr, i) (uniq_rounds fuel x (kids (st x) RChildren dtop)) ->
-  iref (st xr) i = Some d -> par (st xr) RDefs d = Some lib -> get_str (st xr) d str_NAME <> None ->
+  iref (st xr) i = Some d -> par (st xr) RDefs d = Some lib ->
   snd (fst (clone_definition (st xr) d)) = None ->
-  named_block (mkX (fst (fst (clone_definition (st xr) d))) (uniq_ctr xr) (flat_ctr xr)) lib d (next (st xr)) = (x5, None) ->
+  rename_block (mkX (fst (fst (clone_definition (st xr) d))) (uniq_ctr xr) (flat_ctr xr)) lib d (next (st xr)) = (x5, None) ->
   ns_add_conflict (st x5) lib (next (st xr)) KDefinition = false.
 Proof.
-  intros U HL Ht Hr Hin Hri Hp Hnm Hc Hnb.
+  intros U HL Ht Hr Hin Hri Hp Hc Hnb.
   pose proof U as [I [T [F [FT0 K]]]]. pose proof (inv_a _ I) as I1.
   assert (HP : PL (next (st x)) (st x)).
   { intros y l Hy. destruct (Nat.lt_ge_cases l (next (st x))) as [H|H]; [exact H|].
     apply (i1_kids _ I1) in Hy. rewrite (f_kids _ F RDefs l H) in Hy. destruct Hy. }
   destruct (rounds_inv (next (st x)) fuel x (kids (st x) RChildren dtop) U (Nat.le_refl _) HL HP) with (xr := xr) (i := i)
     as [Ur [Hnr [Lr [Pr Hir]]]]; [intros i0 Hi; apply (kids_lt _ _ _ _ F I1 Hi)|exact Hin|].
-  apply (round_add_check (next (st x)) xr i d Ur Hri Hir Hnr Lr Pr lib x5 Hp Hc Hnb Hnm).
+  apply (round_add_check (next (st x)) xr i d Ur Hri Hir Hnr Lr Pr lib x5 Hp Hc Hnb).
 Qed.
 
 (* the out-of-fuel outcome of the search is not an outcome of the round *)
@@ -771,8 +776,8 @@ Proof.
   rewrite make_instance_unique_unfold. destruct (iref (st x) inst) as [d|]; [|cbn [snd]; intro H; discriminate H].
   destruct (par (st x) RDefs d) as [lib|]; [|cbn [snd]; intro H; discriminate H].
   destruct (clone_definition (st x) d) as [[s1 [e|]] d']; cbn [liftR]; [cbn [snd]; intro H; discriminate H|].
-  pose proof (named_block_fuel (mkX s1 (uniq_ctr x) (flat_ctr x)) lib d d') as HF.
-  destruct (named_block (mkX s1 (uniq_ctr x) (flat_ctr x)) lib d d') as [x5 [e|]]; [exact HF|].
+  pose proof (rename_block_fuel (mkX s1 (uniq_ctr x) (flat_ctr x)) lib d d') as HF.
+  destruct (rename_block (mkX s1 (uniq_ctr x) (flat_ctr x)) lib d d') as [x5 [e|]]; [exact HF|].
   unfold liftR at 1. destruct (op_add _ _ _ _ _) as [s3 [e|]]; [cbn [snd]; intro H; discriminate H|].
   unfold liftR. destruct (op_set_reference _ _ _) as [s4 [e|]]; cbn [snd]; intro H; discriminate H.
 Qed.
